@@ -350,6 +350,9 @@ func (d *V2) do(op Op) Resp {
 		return Resp{Desc: descFromV2(out.TableDescription)}
 	case KDeleteGSI:
 		in := &dynamodb.UpdateTableInput{TableName: aws.String(op.Table)}
+		if op.IdxCfg != nil {
+			in.AttributeDefinitions = []types.AttributeDefinition{{AttributeName: aws.String(op.IdxCfg.Hash), AttributeType: scalarV2(op.IdxCfg.HashT)}}
+		}
 		in.GlobalSecondaryIndexUpdates = []types.GlobalSecondaryIndexUpdate{{Delete: &types.DeleteGlobalSecondaryIndexAction{IndexName: aws.String(op.Index)}}}
 		out, err := c.UpdateTable(ctx, in)
 		if err != nil {
